@@ -73,7 +73,8 @@ def build(scn, guide=None, max_steps=150_000, max_time=None):
     draws = Draws(scn.get("draws"))
     lat = scn.get("draws", {}).get("lat") or [0.0]
     if max_time is None:
-        max_time = 120.0 + 40.0 * max(lat) * 8 + 3.0 * sum(lat) + 3.0 * sum((scn.get("slow") or {}).values())
+        max_time = (120.0 + 40.0 * max(lat) * 8 + 3.0 * sum(lat) + 3.0 * sum((scn.get("slow") or {}).values())
+                    + 4.0 * sum((scn.get("draws") or {}).get("wblock") or [0]))
     k = Kernel(scn["sched"], guide=guide, max_steps=max_steps, max_time=max_time)
     fw = Firmware(k, scn.get("cfg", {}), draws)
     link = Link(k, fw, draws, corrupt={int(a): b for a, b in (scn.get("corrupt") or {}).items()},
